@@ -201,22 +201,24 @@ func c06policy(c *Ctx, fn *ssa.Function) {
 	var bad []string
 	nret := 0
 	for _, ret := range reach.Returns() {
-		nret++
-		if len(ret.Results) != 2 {
-			continue
-		}
-		e := reach.EvalAt(ret.Results[1], ret)
-		if e == an.NonNil {
-			continue // error return
-		}
-		// a return of the verifier's own error value is an error return
-		if e != an.Nil {
-			// could be a variable holding an error from an earlier call: accept only if it is provably non-nil
-			if isErrFromFailedCall(ret.Results[1]) {
+		for _, alt := range reach.Alts(ret) {
+			nret++
+			if len(ret.Results) != 2 {
 				continue
 			}
+			e := reach.EvalAlt(alt, 1)
+			if e == an.NonNil {
+				continue // error return
+			}
+			// a return of the verifier's own error value is an error return
+			if e != an.Nil {
+				// could be a variable holding an error from an earlier call: accept only if it is provably non-nil
+				if isErrFromFailedCall(alt.Results[1]) {
+					continue
+				}
+			}
+			bad = append(bad, c.InstrPos(ret))
 		}
-		bad = append(bad, c.InstrPos(ret))
 	}
 	if len(bad) > 0 {
 		c.R.Fail("PATH", key, c.Pos(fn.Pos()), "with the required policy set and the verifier failing, a return with a possibly nil error is reachable at "+strings.Join(bad, ", "))
@@ -246,8 +248,10 @@ func c06verifier(c *Ctx, fn *ssa.Function) {
 		reach := an.Explore(fn, an.After(cl), facts, nil)
 		var bad []string
 		for _, ret := range reach.Returns() {
-			if reach.Eval(ret.Results[0]) != an.NonNil {
-				bad = append(bad, c.InstrPos(ret))
+			for _, alt := range reach.Alts(ret) {
+				if reach.Eval(alt.Results[0]) != an.NonNil {
+					bad = append(bad, c.InstrPos(ret))
+				}
 			}
 		}
 		k := key + "/" + an.ShortCallee(cl.Common())
